@@ -1541,9 +1541,19 @@ func (b *Bitmap) ImportRoaringBits(data []byte, clear bool, log bool, rowSize ui
 	// Walk the whole payload once before touching the bitmap, so that a
 	// malformed payload is rejected without having been partly applied.
 	if vitr, verr := newRoaringIterator(data); verr == nil {
-		_, _, _, _, _, verr = vitr.Next()
+		var vKey uint64
+		var vType byte
+		var vN, vLen int
+		var vPointer *uint16
+		vKey, vType, vN, vLen, vPointer, verr = vitr.Next()
 		for verr == nil {
-			_, _, _, _, _, verr = vitr.Next()
+			// The containers are merged into live storage as they are: their
+			// declared cardinality and ordering must match their contents, or
+			// later operations (optimize on snapshot, counts) index out of range.
+			if cerr := checkImportedContainer(vType, vN, vLen, vPointer); cerr != nil {
+				return 0, nil, errors.Wrapf(cerr, "container with key %d", vKey)
+			}
+			vKey, vType, vN, vLen, vPointer, verr = vitr.Next()
 		}
 		if verr != io.EOF {
 			return 0, nil, verr
@@ -1625,6 +1635,54 @@ func (b *Bitmap) ImportRoaringBits(data []byte, clear bool, log bool, rowSize ui
 	}
 	return changed, rowSet, err
 
+}
+
+// checkImportedContainer verifies that container data handed out by a roaring
+// iterator is internally consistent: array values strictly increasing, runs
+// ordered and disjoint, and the declared cardinality equal to the contents.
+func checkImportedContainer(cType byte, n int, length int, pointer *uint16) error {
+	if n < 1 || n > maxContainerVal+1 {
+		return fmt.Errorf("invalid cardinality %d", n)
+	}
+	switch cType {
+	case containerArray:
+		if length != n {
+			return fmt.Errorf("array of %d values declares cardinality %d", length, n)
+		}
+		array := (*[1 << 16]uint16)(unsafe.Pointer(pointer))[:length:length]
+		for i := 1; i < len(array); i++ {
+			if array[i] <= array[i-1] {
+				return fmt.Errorf("array values not strictly increasing at index %d", i)
+			}
+		}
+	case containerBitmap:
+		if length != bitmapN {
+			return fmt.Errorf("bitmap container of %d words", length)
+		}
+		bitmap := (*[bitmapN]uint64)(unsafe.Pointer(pointer))[:bitmapN:bitmapN]
+		count := 0
+		for _, w := range bitmap {
+			count += int(popcount(w))
+		}
+		if count != n {
+			return fmt.Errorf("bitmap container holds %d bits but declares cardinality %d", count, n)
+		}
+	case containerRun:
+		runs := (*[1 << 15]interval16)(unsafe.Pointer(pointer))[:length:length]
+		count := 0
+		for i, r := range runs {
+			if r.last < r.start || (i > 0 && r.start <= runs[i-1].last) {
+				return fmt.Errorf("runs not ordered and disjoint at index %d", i)
+			}
+			count += int(r.last-r.start) + 1
+		}
+		if count != n {
+			return fmt.Errorf("run container holds %d bits but declares cardinality %d", count, n)
+		}
+	default:
+		return fmt.Errorf("unknown container type %d", cType)
+	}
+	return nil
 }
 
 // unmarshalPilosaRoaring treats data as being encoded in Pilosa's 64 bit
